@@ -13,12 +13,12 @@ pub mod tensor {
     }
 }
 use tensor::Shape;
-// R7: `(size as f32).sqrt() as usize`.  ASSUMED here (and decided by the Kani harness c08_isqrt_floor over every
-// size < 2^24 - 1, where the cast to f32 is exact): it is the integer floor of the square root.
+// R7: `(size as f32).sqrt() as usize`.  ASSUMED here; established by exhaustion (native run of that very expression on
+// every size < 2^24, where the cast to f32 is exact; CBMC's sqrt model is not correctly rounded and cannot decide it): it is the integer floor of the square root.
 pub uninterp spec fn isqrt_spec(n: usize) -> usize;
 #[verifier::external_body]
 pub fn isqrt_f32(n: usize) -> (r: usize)
-    ensures r == isqrt_spec(n), n < 0xFF_FFFF ==> r * r <= n < (r + 1) * (r + 1), n < 0xFF_FFFF ==> r <= 0x1000
+    ensures r == isqrt_spec(n), n < 0x100_0000 ==> r * r <= n < (r + 1) * (r + 1), n < 0x100_0000 ==> r <= 0x1000
 { (n as f32).sqrt() as usize }
 pub open spec fn sq(r: int) -> int { r * r }
 pub open spec fn is_square(n: usize) -> bool { exists|r: int| 0 <= r && #[trigger] sq(r) == n }
@@ -43,7 +43,7 @@ proof fn lemma_floor_root(n: int, r: int)
 
 //@def ACCEPT
     requires
-        inputs is Single, inputs->Single_0 < 0xFF_FFFF, inputs->Single_0 >= 1,
+        inputs is Single, inputs->Single_0 < 0x100_0000, inputs->Single_0 >= 1,
         is_square(inputs->Single_0),
         //@requires-extra
     ensures
@@ -53,7 +53,7 @@ proof fn lemma_floor_root(n: int, r: int)
 //@end
 //@def REJECT
     requires
-        inputs is Single, inputs->Single_0 < 0xFF_FFFF, inputs->Single_0 >= 1,
+        inputs is Single, inputs->Single_0 < 0x100_0000, inputs->Single_0 >= 1,
         !is_square(inputs->Single_0),
         //@requires-extra
     ensures
